@@ -19,6 +19,7 @@ pub mod util;
 pub mod world;
 pub mod cmd_instr;
 pub mod cmd_joypad;
+pub mod cmd_timer;
 
 fn main() {
   let args: Vec<String> = std::env::args().collect();
@@ -27,6 +28,8 @@ fn main() {
     "instr" => cmd_instr::run(&args[2..]),
     "joypad" => cmd_joypad::run(&args[2..]),
     "joypad-trace" => cmd_joypad::trace(&args[2..]),
+    "timer-trace" => cmd_timer::trace(&args[2..]),
+    "timer-partitions" => cmd_timer::partitions(&args[2..]),
     "version" => println!("gbv jit={}", cfg!(feature = "jit")),
     _ => { eprintln!("usage: gbv <command> ..."); std::process::exit(2); }
   }
